@@ -471,7 +471,7 @@ Definition printState (hexflag : bool) (s : bvs) : list ascii :=
   else map (bitChar s) (down_from (bsize s)).
 
 (* formatState(s, state, base, dropLeadingZeros): one hex digit ('0'-'9','A'-'F') or 'X' per nibble,
-   independent of the stream's base (repaired in /repo fff2228; before, nibbles above 9 were printed
+   independent of the stream's base (repaired in /repo b90a265; before, nibbles above 9 were printed
    with `s << v` as two decimal digits) *)
 Definition formatState (s : bvs) (base : N) (dropLeadingZeros : bool) : list ascii :=
   if (base =? 16) && (bsize s mod 4 =? 0) then
@@ -535,19 +535,18 @@ Definition digitVal (c : ascii) : N * N :=   (* (value, defined) as uint8_t *)
   else if in_range c 65 70 then (n - 65 + 10, 255)
   else (0, 0).
 
-(* insertNonStraddling asserts start % 64 + size <= 64 (HCL_ASSERT -> exception = None): an octal
-   digit whose 3 bits straddle a word border (digit 21 sits at bits 63..65) makes the parse fail *)
-Fixpoint parseHexLoop (bps : N) (num : list ascii) (cnt : N) (i : N) (s : bvs) : option bvs :=
+(* every digit is written with the straddling-capable insert(plane, offset, size, value): an octal
+   digit may cross a word border (digit 21 sits at bits 63..65).  (Before /repo 659d324 this used
+   insertNonStraddling, whose assertion rejected octal literals of 22 or more digits.) *)
+Fixpoint parseHexLoop (bps : N) (num : list ascii) (cnt : N) (i : N) (s : bvs) : bvs :=
   match num with
-  | [] => Some s
+  | [] => s
   | c :: r =>
     let vd := digitVal c in
     let dstIdx := cnt - 1 - i in
-    if (dstIdx * bps) mod 64 + bps <=? 64 then
-      let s1 := insertNS s VALUE (dstIdx * bps) bps (fst vd) in
-      let s2 := insertNS s1 DEFINED (dstIdx * bps) bps (snd vd) in
-      parseHexLoop bps r cnt (i + 1) s2
-    else None
+    let s1 := insertW s VALUE (dstIdx * bps) bps (fst vd) in
+    let s2 := insertW s1 DEFINED (dstIdx * bps) bps (snd vd) in
+    parseHexLoop bps r cnt (i + 1) s2
   end.
 
 Definition parseWidth (width : option N) : bvs :=
@@ -565,7 +564,7 @@ Definition parseHex (bps : N) (ret : bvs) (num : list ascii) : option bvs :=
   let chk := if bsize ret =? 0 then Some (resize ret (cnt * bps))
              else if cnt * bps <=? bsize ret then Some ret else None in
   match chk with
-  | Some r => parseHexLoop bps num cnt 0 r
+  | Some r => Some (parseHexLoop bps num cnt 0 r)
   | None => None
   end.
 
